@@ -157,6 +157,15 @@ func (s *Symx) Bind(v ssa.Value, name string) *Symx {
 	return s
 }
 
+// BindTerm makes v render as the given term (structure kept: a literal stays a literal with its fields).
+func (s *Symx) BindTerm(v ssa.Value, t *Term) *Symx {
+	if s.subst == nil {
+		s.subst = map[ssa.Value]*Term{}
+	}
+	s.subst[v] = t
+	return s
+}
+
 func (s *Symx) Of(v ssa.Value) *Term {
 	return s.of(v, map[ssa.Value]bool{}, 0)
 }
@@ -205,7 +214,15 @@ func (s *Symx) of(v ssa.Value, visiting map[ssa.Value]bool, depth int) *Term {
 		return &Term{Op: "builtin", Name: x.Name(), Val: v}
 	case *ssa.Field:
 		st := x.X.Type().Underlying().(*types.Struct)
-		return &Term{Op: "field", Name: st.Field(x.Field).Name(), Args: []*Term{rec(x.X)}, Val: v}
+		if f := s.ctorField(x.X, st.Field(x.Field).Name(), rec, depth); f != nil {
+			return f
+		}
+		base := rec(x.X)
+		// (*p).F of a loaded struct value is p.F; a conversion between struct types with identical fields keeps them
+		for base.Op == "deref" && len(base.Args) == 1 || (base.Op == "conv" && len(base.Args) == 1 && base.Args[0].Op == "deref") {
+			base = base.Args[0]
+		}
+		return &Term{Op: "field", Name: st.Field(x.Field).Name(), Args: []*Term{base}, Val: v}
 	case *ssa.FieldAddr:
 		// address of a field: represented like the field itself (loads strip nothing)
 		st := derefStruct(x.X.Type())
@@ -556,6 +573,17 @@ func (s *Symx) load(u *ssa.UnOp, visiting map[ssa.Value]bool, depth int) *Term {
 					return f
 				}
 			}
+			// a local copy of what a pointer points to (`v := *p; … v.F`, a by-value struct parameter of an expanded helper):
+			// the field of the copy is the field behind the pointer at the time of the copy
+			if bt.Op == "deref" && len(bt.Args) == 1 {
+				return &Term{Op: "field", Name: name, Args: []*Term{bt.Args[0]}, Val: u}
+			}
+			// `sub := NewBlockRange(a, b); … sub.FromBlock`: the local holds the result of a plain constructor
+			if bt.Val != nil {
+				if f := s.ctorField(bt.Val, name, rec, depth); f != nil {
+					return f
+				}
+			}
 			return &Term{Op: "field", Name: name, Args: []*Term{bt}, Val: u}
 		}
 		return rec(a)
@@ -795,4 +823,31 @@ func nonNilAlts(t *Term) *Term {
 		return keep[0]
 	}
 	return &Term{Op: "phi", Args: keep, Val: t.Val}
+}
+
+// ctorField: v is the result of a call to a plain constructor (one block, one return of a composite literal built from the
+// parameters, e.g. NewBlockRange(a, b)); the term of field `name` of that value is the argument it was built from.
+func (s *Symx) ctorField(v ssa.Value, name string, rec func(ssa.Value) *Term, depth int) *Term {
+	cl, isCall := v.(*ssa.Call)
+	if !isCall || depth > 12 {
+		return nil
+	}
+	g := cl.Call.StaticCallee()
+	if g == nil || len(g.Blocks) != 1 || len(g.Params) != len(cl.Call.Args) {
+		return nil
+	}
+	ret, isRet := g.Blocks[0].Instrs[len(g.Blocks[0].Instrs)-1].(*ssa.Return)
+	if !isRet || len(ret.Results) != 1 {
+		return nil
+	}
+	sub := NewSymx()
+	sub.ElideConv = s.ElideConv
+	for i, p := range g.Params {
+		sub.BindTerm(p, rec(cl.Call.Args[i]))
+	}
+	lit := sub.Of(ret.Results[0])
+	if lit.Op != "lit" || lit.Fields["<whole>"] != nil {
+		return nil
+	}
+	return lit.Fields[name]
 }
